@@ -578,3 +578,79 @@ theorem rotate_unsupported (v : View) (hk : v.kind ≠ .img) : rotateCCW v = .er
   | yuv => rfl
 
 end Gzx.Luminance
+
+namespace Gzx.Luminance
+open Gzx
+
+/-! ## the naive array: extensionality, rotation index transform, four quarter turns -/
+
+theorem abs_WF (v : View) (hv : v.WF) : v.abs.WF := by
+  unfold View.abs
+  split
+  · refine ⟨by simp [Img.invert, baseRows_length], ?_⟩
+    intro r hr
+    simp only [Img.invert, List.mem_map] at hr
+    obtain ⟨r', hr', rfl⟩ := hr
+    simp only [List.length_map, baseRows_row_length v hv r' hr']
+    rfl
+  · exact ⟨baseRows_length v, baseRows_row_length v hv⟩
+
+theorem Img.ext_px (a b : Img) (ha : a.WF) (hb : b.WF) (hw : a.w = b.w) (hh : a.h = b.h)
+    (hpx : ∀ x y, x < a.w → y < a.h → a.px x y = b.px x y) : a = b := by
+  obtain ⟨aw, ah, ar⟩ := a
+  obtain ⟨bw, bh, br⟩ := b
+  simp only at hw hh
+  subst hw hh
+  obtain ⟨hal, har⟩ := ha
+  obtain ⟨hbl, hbr⟩ := hb
+  simp only at hal har hbl hbr hpx
+  simp only [Img.mk.injEq, true_and]
+  apply List.ext_getElem (by omega)
+  intro y h1 h2
+  have l1 := har _ (List.getElem_mem h1)
+  have l2 := hbr _ (List.getElem_mem h2)
+  apply List.ext_getElem (by omega)
+  intro x h3 h4
+  have := hpx x y (by omega) (by omega)
+  simp only [Img.px, List.getD, List.getElem?_eq_getElem h1, List.getElem?_eq_getElem h2,
+    Option.getD_some, List.getElem?_eq_getElem h3, List.getElem?_eq_getElem h4] at this
+  exact this
+
+theorem Img.rot_WF (m : Img) (hm : m.WF) : m.rotCCW.WF := by
+  refine ⟨by simp [Img.rotCCW], ?_⟩
+  intro r hr
+  simp only [Img.rotCCW, List.mem_map, List.mem_range] at hr
+  obtain ⟨j, _, rfl⟩ := hr
+  simp only [List.length_map, hm.1]
+  rfl
+
+/-- quarter turn counter-clockwise as an index transform: `new(x, y) = old(w - 1 - y, x)` -/
+theorem Img.px_rot (m : Img) (hm : m.WF) (x y : Nat) (hx : x < m.h) (hy : y < m.w) :
+    m.rotCCW.px x y = m.px (m.w - 1 - y) x := by
+  have hx' : x < m.rows.length := by rw [hm.1]; exact hx
+  simp [Img.px, Img.rotCCW, List.getD, hy, hx']
+
+theorem Img.rot4 (m : Img) (hm : m.WF) : m.rotCCW.rotCCW.rotCCW.rotCCW = m := by
+  have w1 := Img.rot_WF m hm
+  have w2 := Img.rot_WF _ w1
+  have w3 := Img.rot_WF _ w2
+  have w4 := Img.rot_WF _ w3
+  apply Img.ext_px _ _ w4 hm rfl rfl
+  intro x y hx hy
+  have hx' : x < m.w := hx
+  have hy' : y < m.h := hy
+  have d3w : m.rotCCW.rotCCW.rotCCW.w = m.h := rfl
+  have d2w : m.rotCCW.rotCCW.w = m.w := rfl
+  have d2h : m.rotCCW.rotCCW.h = m.h := rfl
+  have d1w : m.rotCCW.w = m.h := rfl
+  have d1h : m.rotCCW.h = m.w := rfl
+  rw [Img.px_rot _ w3 x y (by rw [show m.rotCCW.rotCCW.rotCCW.h = m.w from rfl]; exact hx') (by rw [d3w]; exact hy'), d3w]
+  rw [Img.px_rot _ w2 (m.h - 1 - y) x (by rw [d2h]; omega) (by rw [d2w]; omega), d2w]
+  rw [Img.px_rot _ w1 (m.w - 1 - x) (m.h - 1 - y) (by rw [d1h]; omega) (by rw [d1w]; omega), d1w]
+  have e1 : m.h - 1 - (m.h - 1 - y) = y := by omega
+  rw [e1]
+  rw [Img.px_rot m hm y (m.w - 1 - x) hy' (by omega)]
+  have e2 : m.w - 1 - (m.w - 1 - x) = x := by omega
+  rw [e2]
+
+end Gzx.Luminance
